@@ -143,3 +143,26 @@ static int ref_48(Diamond const *t) { return t->_dd; }
 //OPTIONAL Diamond::set_dd(Diamond *,int) : c_fnames,c_string_fnames,c,c_string,c_fnames_fptrs,c_fnames_uniq,c_fnames_nodb,c_true_names
 //REF Diamond::set_dd(Diamond *,int)
 static void ref_49(Diamond *t, int v) { t->_dd = v; }
+static Tags *verif_make_Tags() { Tags *t = new Tags(0); t->_t = nondet_ulong(); return t; }
+static Tags *verif_clone_Tags(const Tags *a) { Tags *t = new Tags(0); t->_t = a->_t; return t; }
+static bool verif_same_Tags(const Tags *a, const Tags *b) { return a->_t == b->_t; }
+//REF Tags::Tags(Tags const *)
+static Tags *ref_Tags_copy(Tags const *o) { return new Tags(*o); }
+//REF Tags::Tags(int)
+static Tags *ref_Tags_int(int v) { return new Tags(v); }
+//REF Tags::set_tag(Tags *,uintptr_t)
+static uintptr_t ref_Tags_set_tag(Tags *t, uintptr_t v) { return t->set_tag(v); }
+//REF Tags::tag_ref(Tags const *)
+static uintptr_t ref_Tags_tag_ref(Tags const *t) { return t->tag_ref(); }
+//REF Tags::diff(Tags const *,intptr_t,intptr_t)
+static intptr_t ref_Tags_diff(Tags const *t, intptr_t a, intptr_t b) { return t->diff(a, b); }
+//REF Tags::size_of(Tags const *,std::size_t,std::size_t)
+static std::size_t ref_Tags_size_of(Tags const *t, std::size_t n, std::size_t m) { return t->size_of(n, m); }
+//REF Tags::wide(Tags const *,int64_t,uint64_t)
+static int64_t ref_Tags_wide(Tags const *t, int64_t x, uint64_t y) { return t->wide(x, y); }
+//OPTIONAL Tags::get_t(Tags const *) : c_fnames,c_string_fnames,c,c_string,c_fnames_fptrs,c_fnames_uniq,c_fnames_nodb,c_true_names
+//REF Tags::get_t(Tags const *)
+static uintptr_t ref_Tags_get_t(Tags const *t) { return t->_t; }
+//OPTIONAL Tags::set_t(Tags *,uintptr_t) : c_fnames,c_string_fnames,c,c_string,c_fnames_fptrs,c_fnames_uniq,c_fnames_nodb,c_true_names
+//REF Tags::set_t(Tags *,uintptr_t)
+static void ref_Tags_set_t(Tags *t, uintptr_t v) { t->_t = v; }
